@@ -64,8 +64,24 @@ func truncJobs(tier string) []*Job {
 			if tier != "thorough" && (i+rb)%3 == 2 {
 				continue
 			}
-			jobs = append(jobs, fmk("H_trunc", with(t, "rb", rb, "rsrc", (i+rb)%4)))
+			jobs = append(jobs, fmk("H_trunc", with(t, "rb", rb, "rsrc", (i+rb)%4, "cutsel", 0)))
 		}
+	}
+	// a block stored raw at exactly the block size (64 KiB of incompressible bytes: the block data
+	// fills the Reader's whole block buffer), alone and followed by a short stored block; cuts at
+	// every structural boundary +-3
+	big := func(n, bc, cc, deliv, rb int) {
+		jobs = append(jobs, fmk("H_trunc", P("n", n, "period", -65536, "bs", 4, "bc", bc, "cc", cc, "sizeopt", 0, "level", 0, "legacy", 0, "deliv", deliv, "k", 0, "rb", rb, "rsrc", 0, "cutsel", 1)))
+	}
+	big(65536, 1, 0, 0, 0)
+	big(65536+300, 1, 0, 0, 2)
+	big(65536, 0, 0, 4, 1)
+	if tier == "thorough" {
+		big(65536, 1, 0, 0, 2)
+		big(65536, 1, 1, 0, 1)
+		big(65536+300, 1, 1, 4, 0)
+		big(65536+300, 0, 1, 0, 1)
+		big(131072, 1, 0, 0, 0)
 	}
 	return jobs
 }
@@ -260,7 +276,7 @@ func init() {
 	}
 	checkDefs["C06"] = &CheckDef{Property: "C06", Jobs: func(tier string) []*Job { return append(truncJobs(tier), concR(tier, 1)...) },
 		Bounds: func(string) []string {
-			return []string{tmpl, "every cut position 1..len-1 of every template (position chosen symbolically, enumerated by the solver); read back through Read (>= block, 3-byte buffers) and WriteTo, with 4 source fragmentation modes; input bytes symbolic", "concurrent Reader (ConcurrencyOption(2)): a two-block frame with both checksums cut at 10 (thorough: every) position(s), Read and WriteTo, under every schedule with at most 2 delays"}
+			return []string{tmpl, "every cut position 1..len-1 of every template (position chosen symbolically, enumerated by the solver); read back through Read (>= block, 3-byte buffers) and WriteTo, with 4 source fragmentation modes; input bytes symbolic", "frames holding a block stored raw at exactly the block size (64 KiB of concrete incompressible bytes, alone, twice, or followed by a 300-byte stored block; block checksum on/off): every cut within 3 bytes of a structural boundary (header, size word, block data, block checksum, end mark)", "concurrent Reader (ConcurrencyOption(2)): a two-block frame with both checksums cut at 10 (thorough: every) position(s), Read and WriteTo, under every schedule with at most 2 delays"}
 		}, Outside: frame2Outside, Assumptions: frameAssumptions,
 		Filter: func(id string) bool { return hasPrefix(id, "trunc-") || hasPrefix(id, "no-panic") || hasPrefix(id, "unwind") }}
 	checkDefs["C05"] = &CheckDef{Property: "C05",
